@@ -27,7 +27,21 @@ var (
 
 func vhStubsOn() bool { return vhOn }
 
-//verif:stub $R/pkg/kube/object_patch.unmarshalFromJSONOrYAML if vhStubsOn
+// the decoding stub is off in the harness that runs the real JSON stream decoder
+var vhRealDecode bool
+
+func vhDecodeStubOn() bool { return vhOn && !vhRealDecode }
+func vhYamlStubOn() bool   { return vhOn && vhRealDecode }
+
+// the YAML decoder (gopkg.in/yaml.v3) is outside the encodable fragment: in the
+// stream harness it only sees streams the JSON decoder rejected, and rejects them too
+//
+//verif:stub $R/pkg/kube/object_patch.unmarshalFromYaml if vhYamlStubOn
+func vhUnmarshalYaml(specs []byte) ([]OperationSpec, error) {
+	return nil, errors.New("yaml: not a document stream")
+}
+
+//verif:stub $R/pkg/kube/object_patch.unmarshalFromJSONOrYAML if vhDecodeStubOn
 func vhUnmarshal(specs []byte) ([]OperationSpec, error) {
 	if !vhDecodeOK {
 		return nil, errors.New("cannot decode")
@@ -181,4 +195,77 @@ func vhB(b bool) int {
 		return 1
 	}
 	return 0
+}
+
+
+// VH_C13_stream: the real JSON stream decoder (unmarshalFromJSONOrYAML ->
+// unmarshalFromJson) over a stream of documents whose optional members are
+// present or absent: every document is decoded on its own (a member one
+// document omits has its zero value whatever earlier documents said), in
+// order, one specification per document; an undecodable stream yields an error
+// and no specification.
+func VH_C13_stream() {
+	vhOn, vhRealDecode = true, true
+	n := zz.Len("ndocs", 0, zz.Param("maxdocs", 3))
+	malformedAt := -1
+	if zz.Bool("malformed") {
+		malformedAt = zz.Len("malformed_at", 0, n)
+	}
+	docs := make([]map[string]any, n)
+	want := make([]OperationSpec, n)
+	for i := 0; i < n; i++ {
+		si := strconv.Itoa(i)
+		op := zz.OneOf("op"+si, string(Create), string(Delete), string(MergePatch), string(JQPatch))
+		d := map[string]any{"operation": op, "kind": "Pod", "name": "o" + si}
+		w := OperationSpec{Operation: OperationType(op), Kind: "Pod", Name: "o" + si}
+		if zz.Bool("has_namespace" + si) {
+			d["namespace"] = "ns" + si
+			w.Namespace = "ns" + si
+		}
+		if zz.Bool("has_subresource" + si) {
+			d["subresource"] = "/status"
+			w.Subresource = "/status"
+		}
+		if zz.Bool("has_ignore_missing" + si) {
+			v := zz.Bool("ignore_missing" + si)
+			d["ignoreMissingObject"] = v
+			w.IgnoreMissingObject = v
+		}
+		if i == 0 {
+			// members only the first document carries
+			d["apiVersion"] = "v1"
+			w.ApiVersion = "v1"
+			d["jqFilter"] = ".a"
+			w.JQFilter = ".a"
+			d["ignoreHookError"] = true
+			w.IgnoreHookError = true
+			d["mergePatch"] = "mp"
+			w.MergePatch = "mp"
+		}
+		docs[i], want[i] = d, w
+	}
+	specs, err := unmarshalFromJSONOrYAML(zz.JSONDocs(malformedAt, docs...))
+	if malformedAt >= 0 {
+		zz.Assert(err != nil, "undecodable_stream_is_an_error")
+		zz.Assert(len(specs) == 0, "undecodable_stream_yields_nothing")
+		vhOn, vhRealDecode = false, false
+		zz.Reach("end")
+		return
+	}
+	zz.Assert(err == nil, "valid_stream_decodes")
+	zz.Assert(len(specs) == n, "one_specification_per_document")
+	for i := 0; i < len(specs) && i < n; i++ {
+		g, w := specs[i], want[i]
+		zz.Assert(g.Operation == w.Operation && g.Kind == w.Kind && g.Name == w.Name, "documents_decoded_in_order")
+		zz.Assert(g.Namespace == w.Namespace, "omitted_namespace_is_empty")
+		zz.Assert(g.Subresource == w.Subresource, "omitted_subresource_is_empty")
+		zz.Assert(g.IgnoreMissingObject == w.IgnoreMissingObject, "omitted_ignore_missing_is_false")
+		zz.Assert(g.ApiVersion == w.ApiVersion && g.JQFilter == w.JQFilter, "omitted_strings_are_empty")
+		zz.Assert(g.IgnoreHookError == w.IgnoreHookError, "omitted_ignore_hook_error_is_false")
+		mp, _ := g.MergePatch.(string)
+		wp, _ := w.MergePatch.(string)
+		zz.Assert(mp == wp && (g.MergePatch == nil) == (w.MergePatch == nil), "omitted_patch_is_nil")
+	}
+	vhOn, vhRealDecode = false, false
+	zz.Reach("end")
 }
